@@ -5,13 +5,15 @@ C15 — faults while the logger reads the body. The body of a message whose peer
 some bytes and then an error; the proxy forwards the message whatever the logger returns. What the
 body still yields afterwards decides what is forwarded: the bytes before the break, and the break
 itself (a chunked message without its last-chunk, a Content-Length body that is short).
+The model follows /repo after fix 5291428 (`snapshotKeepsPrefix = true`).
 -/
 namespace Martian.Props.C15
 open Martian Martian.MessageView Martian.Logging
 
-/-- The full clause: after any logger, the body yields exactly what it would have yielded. FALSE of
-the code as it is for the consumed bytes (`snapshotKeepsPrefix = false`: open finding
-`c15:body-fault-consumed-prefix-not-forwarded`), true of the repaired snapshot. -/
+/-- The clause: after any logger, the body yields exactly what it would have yielded. True of the
+code (`keep = true`, since /repo 5291428 the snapshot hands back the consumed bytes followed by the
+same error); false of the unrepaired variant `keep = false`, kept as a definition so that the
+inverse of the fix stays documented (`unrepaired_snapshot_loses_consumed_bytes`). -/
 def LoggingPreservesBodyFaults (keep : Bool) : Prop :=
   ∀ (t : Trusted) (l : Logger) (skip : Bool) (m : Msg) (b : FBody), (logFaultK keep t l skip m b).body = b
 
@@ -28,54 +30,56 @@ theorem logFaultK_passed (keep : Bool) (t : Trusted) (l : Logger) (skip : Bool) 
         err := (logMsgT t l skip { m with body := some b.data }).err } := by
   simp only [logFaultK, h, Bool.false_eq_true, if_false]
 
-/-- The break itself is never masked and never introduced — every logger, option, skip flag,
-verdict of the trusted parsers, message, prefix length: a body that fails still fails (the message
-is forwarded broken off, never as a complete one), a body that ends cleanly still does. And the
-bytes it yields are never other bytes: all of them, or — only when the body fails under a logger
-that drains it — none. -/
-theorem logging_never_masks_body_faults (t : Trusted) (l : Logger) (skip : Bool) (m : Msg) (b : FBody) :
-    (logFault t l skip m b).body.err = b.err ∧
-    ((logFault t l skip m b).body.data = b.data ∨
-      (b.err = true ∧ installs l skip { m with body := some b.data } ≠ [] ∧
-        (logFault t l skip m b).body.data = [])) := by
-  unfold logFault
-  cases hc : (b.err && !(installs l skip { m with body := some b.data }).isEmpty)
-  · rw [logFaultK_passed _ _ _ _ _ _ hc]; exact ⟨rfl, Or.inl rfl⟩
-  · rw [logFaultK_drained _ _ _ _ _ _ hc]
-    simp only [Bool.and_eq_true, Bool.not_eq_true', List.isEmpty_eq_false_iff] at hc
-    exact ⟨hc.1.symm, Or.inr ⟨hc.1, hc.2, by simp [snapshotKeepsPrefix]⟩⟩
-
-/-- The part of the full clause that holds of the code as it is: unless the body fails under a
-logger that drains it, it yields exactly what it would have yielded (marbl, every skip-logging
-exchange, body capture off, headers-only; and every logger on a body that ends cleanly). -/
-theorem logging_preserves_body_faults_partial (t : Trusted) (l : Logger) (skip : Bool) (m : Msg) (b : FBody)
-    (h : b.err = false ∨ installs l skip { m with body := some b.data } = []) :
+/-- Every logger, option combination, skip flag, verdict of the trusted parsers, message and body —
+in particular a body that fails after any number of bytes under a logger that drains it: the
+message handed on yields exactly what it would have yielded without the logger, the same bytes and
+then the same clean end or the same error. So what is forwarded breaks off at the same point, with
+the same bytes before the break, with and without the logger. -/
+theorem logging_preserves_body_faults (t : Trusted) (l : Logger) (skip : Bool) (m : Msg) (b : FBody) :
     (logFault t l skip m b).body = b := by
   unfold logFault
-  have hc : (b.err && !(installs l skip { m with body := some b.data }).isEmpty) = false := by
-    rcases h with h | h <;> simp [h]
-  rw [logFaultK_passed _ _ _ _ _ _ hc]
-
-/-- With the repaired snapshot (`repo-patches/C15-fix-snapshot-keeps-read-prefix.patch`) the full
-clause holds. -/
-theorem logging_preserves_body_faults_if_prefix_kept : LoggingPreservesBodyFaults true := by
-  intro t l skip m b
   cases hc : (b.err && !(installs l skip { m with body := some b.data }).isEmpty)
   · rw [logFaultK_passed _ _ _ _ _ _ hc]
   · rw [logFaultK_drained _ _ _ _ _ _ hc]
     simp only [Bool.and_eq_true] at hc
-    cases b; simp_all
+    cases b; simp_all [snapshotKeepsPrefix]
+
+/-- In particular the break itself is never masked and never introduced: a body that fails still
+fails (the message is forwarded broken off, never as a complete one), a body that ends cleanly
+still does. This part holds whatever the snapshot does with the consumed bytes. -/
+theorem logging_never_masks_body_faults (keep : Bool) (t : Trusted) (l : Logger) (skip : Bool) (m : Msg)
+    (b : FBody) : (logFaultK keep t l skip m b).body.err = b.err := by
+  cases hc : (b.err && !(installs l skip { m with body := some b.data }).isEmpty)
+  · rw [logFaultK_passed _ _ _ _ _ _ hc]
+  · rw [logFaultK_drained _ _ _ _ _ _ hc]
+    simp only [Bool.and_eq_true] at hc
+    exact hc.1.symm
+
+theorem logging_preserves_body_faults_full : LoggingPreservesBodyFaults snapshotKeepsPrefix :=
+  fun t l skip m b => logging_preserves_body_faults t l skip m b
 
 def brokenUpload : Msg :=
   { isReq := true, method := strBytes "POST", url := strBytes "/", major := 1, minor := 1, code := 0,
     status := [], host := strBytes "h", te := [chunkedTok], cl := -1, hdr := [], body := some [], trailer := none }
 
-/-- The code as it is: a chunked upload that breaks off after `abc`, under a bare snapshot, is
-forwarded broken off but without `abc`. -/
-theorem logging_preserves_body_faults_counterexample : ¬ LoggingPreservesBodyFaults snapshotKeepsPrefix := by
-  intro h
-  have := h ⟨true, true, true⟩ (.snapshot noOpts) false brokenUpload ⟨strBytes "abc", true⟩
-  revert this; decide
+/-- The inverse of the fix (the snapshot as it was before /repo 5291428: `if err != nil { return err }`,
+the body left where the error struck): a chunked upload that breaks off after `abc`, under a bare
+snapshot, is handed on broken off but WITHOUT `abc` — the clause fails, on exactly the bodies that
+fail under a draining logger and nowhere else. -/
+theorem unrepaired_snapshot_loses_consumed_bytes :
+    ¬ LoggingPreservesBodyFaults false ∧
+    (logFaultK false ⟨true, true, true⟩ (.snapshot noOpts) false brokenUpload ⟨strBytes "abc", true⟩).body = ⟨[], true⟩ ∧
+    (∀ (t : Trusted) (l : Logger) (skip : Bool) (m : Msg) (b : FBody),
+      (b.err = false ∨ installs l skip { m with body := some b.data } = []) →
+        (logFaultK false t l skip m b).body = b) := by
+  refine ⟨?_, by decide, ?_⟩
+  · intro h
+    have := h ⟨true, true, true⟩ (.snapshot noOpts) false brokenUpload ⟨strBytes "abc", true⟩
+    revert this; decide
+  · intro t l skip m b h
+    have hc : (b.err && !(installs l skip { m with body := some b.data }).isEmpty) = false := by
+      rcases h with h | h <;> simp [h]
+    rw [logFaultK_passed _ _ _ _ _ _ hc]
 
 /-- A logger whose read of the body failed returns the error and has recorded nothing. -/
 theorem failed_body_read_records_nothing (t : Trusted) (l : Logger) (skip : Bool) (m : Msg) (b : FBody)
@@ -93,9 +97,12 @@ theorem logFault_clean (t : Trusted) (l : Logger) (skip : Bool) (m : Msg) (d : B
   unfold logFault
   rw [logFaultK_passed _ _ _ _ _ _ (by simp)]; exact ⟨rfl, rfl⟩
 
--- non-vacuity: both branches occur (a draining logger on a failing body; marbl on the same body)
-example : (logFault ⟨true, true, true⟩ (.text false false) false brokenUpload ⟨strBytes "abc", true⟩).body = ⟨[], true⟩ ∧
+-- non-vacuity: a draining logger on a failing body hands on the consumed bytes and the error; marbl
+-- and a skip-logging exchange never touch the body; a logger error is returned on the draining path
+example : (logFault ⟨true, true, true⟩ (.text false false) false brokenUpload ⟨strBytes "abc", true⟩).body = ⟨strBytes "abc", true⟩ ∧
+    (logFault ⟨true, true, true⟩ (.text false false) false brokenUpload ⟨strBytes "abc", true⟩).err = true ∧
     (logFault ⟨true, true, true⟩ .marbl false brokenUpload ⟨strBytes "abc", true⟩).body = ⟨strBytes "abc", true⟩ ∧
+    (logFault ⟨true, true, true⟩ .marbl false brokenUpload ⟨strBytes "abc", true⟩).err = false ∧
     (logFault ⟨true, true, true⟩ (.text false false) true brokenUpload ⟨strBytes "abc", true⟩).body = ⟨strBytes "abc", true⟩ := by
   decide
 
